@@ -21,6 +21,7 @@ def main():
     ap.add_argument("src"); ap.add_argument("sid"); ap.add_argument("prop")
     ap.add_argument("--checks", default=None)
     ap.add_argument("--demo-flags", default="-O1")
+    ap.add_argument("--demo-cxx", default="g++")
     ap.add_argument("--needs", default="")
     ap.add_argument("--skip-tests", action="store_true")
     ap.add_argument("--tier", default="quick")
@@ -43,17 +44,17 @@ def main():
         flags = a.demo_flags
         if a.demo_rejects:
             def rej(inc, exe):
-                rc, o = sh(f"g++ -std=c++20 -w {flags} -I{inc} {demo} -o {exe}", timeout=900)
+                rc, o = sh(f"{a.demo_cxx} -std=c++20 -w {flags} -I{inc} {demo} -o {exe}", timeout=900)
                 if rc != 0:
                     return 0, "rejected by the compiler (expected): " + " ".join(l for l in o.splitlines() if "error" in l)[:200]
                 return sh(f"{exe}", timeout=900)
             rc0, o0 = rej("/repo/lib/core", f"{wt}/demo_clean")
             rc1, o1 = rej(f"{wt}/lib/core", f"{wt}/demo_mut")
         else:
-            rc0, o0 = sh(f"g++ -std=c++20 -w {flags} -I/repo/lib/core {demo} -o {wt}/demo_clean && {wt}/demo_clean", timeout=900)
-            rc1, o1 = sh(f"g++ -std=c++20 -w {flags} -I{wt}/lib/core {demo} -o {wt}/demo_mut && {wt}/demo_mut", timeout=900)
+            rc0, o0 = sh(f"{a.demo_cxx} -std=c++20 -w {flags} -I/repo/lib/core {demo} -o {wt}/demo_clean && {wt}/demo_clean", timeout=900)
+            rc1, o1 = sh(f"{a.demo_cxx} -std=c++20 -w {flags} -I{wt}/lib/core {demo} -o {wt}/demo_mut && {wt}/demo_mut", timeout=900)
         meta["demo"] = {"flags": flags, "clean_rc": rc0, "clean_tail": o0[-300:], "with_change_rc": rc1, "with_change_tail": o1[-400:]}
-        meta["ran"].append(f"g++ -std=c++20 {flags} -I<tree>/lib/core demo.cpp && ./a.out  (clean rc={rc0}, with change rc={rc1})")
+        meta["ran"].append(f"{a.demo_cxx} -std=c++20 {flags} -I<tree>/lib/core demo.cpp && ./a.out  (clean rc={rc0}, with change rc={rc1})")
         if not a.skip_tests:
             t0 = time.time()
             rc, out = sh(f"cmake -G Ninja -S {wt} -B {wt}/_build -DCOVFIE_BUILD_TESTS=ON -DCOVFIE_PLATFORM_CPU=ON -DCMAKE_BUILD_TYPE=RelWithDebInfo "
